@@ -170,7 +170,9 @@ def _reuse_plans():
         return [B.p(None), B.item('n1'), B.p('carried text'), B.p(''), B.item('n2'), B.p('   '), B.p('(a note)'), B.item('n3'),
                 B.p('\u00a0\u3000'), E('p', E('b', text='bold'), text=None), B.p('Line one' + gen_hist.CR + 'line two'), B.p(' last '),
                 # the same clip used twice, and two items without an ID: every one of them is an item of the body
-                B.item('n2'), B.item(B.BLANK), B.p('between the blanks'), B.item(B.BLANK)]
+                B.item('n2'), B.item(B.BLANK), B.p('between the blanks'), B.item(B.BLANK),
+                # presenter tags (children of a roStorySend body like any other), each in front of an item
+                E('storyPresenter', text='Anna'), B.item('n4'), E('storyPresenterRR', text='12'), E('storyPresenter', text='Ben'), B.item('n5')]
 
     def n_story():
         return B.story('N', BODY(), md=B.timing_md(duration='10'))
